@@ -164,3 +164,85 @@ M('balanced-rx-keeps-polled', ['C07'], Z, "                                socks
 M('prefetch-after-split', ['C07'], Z, "                if not self.low_latency and balanced != 1:", "                if not self.low_latency:", ['C07.R3'])
 M('env-bal-not-incremented', ['C07'], Z, "                env['bal'] = balance or balanced + 1", "                env['bal'] = balance or balanced", ['C07.R3'])
 M('hello-skipped-under-balance', ['C07'], Z, "                if ret is not None or balance:  # send HELLO only if", "                if ret is not None:  # send HELLO only if", ['C07.R5'])
+
+# ------------------------------------------------------------------------------------------------------ C08 / C18
+
+M('run-setup-inside-shutdown-try', ['C08'], F, """                    try:
+                        filter.setup(filter.config)
+
+                        try:
+                            while not stop_evt.is_set():""", """                    try:
+                        try:
+                            filter.setup(filter.config)
+
+                            while not stop_evt.is_set():""", ['C08.R1'])
+M('run-no-fini', ['C08'], F, """                finally:
+                    filter.fini()
+
+            except Exception as exc:""", """                finally:
+                    pass
+
+            except Exception as exc:""", ['C08.R1'])
+M('run-exitmsg-swapped', ['C08'], F, "filter.mq.send_exit_msg('error' if is_exc else 'clean')", "filter.mq.send_exit_msg('clean' if is_exc else 'error')", ['C08.R1', 'C08.R2'])
+M('run-exit-reraised', ['C08'], F, """                    filter.emitter.stop_lineage_heart_beat()
+                    filter.emitter.emit_stop()
+                pass
+
+            finally:""", """                    filter.emitter.stop_lineage_heart_beat()
+                    filter.emitter.emit_stop()
+                raise
+
+            finally:""", ['C08.R1'])
+M('run-propagate-not-eaten', ['C08'], F, "                except Filter.PropagateError:  # it has done its job, now eat it\n                    pass", "                except Filter.PropagateError:  # it has done its job, now eat it\n                    raise", ['C08.R1'])
+M('run-stop-evt-not-set', ['C08'], F, "                filter.emitter.emit_stop()\n            stop_evt.set()", "                filter.emitter.emit_stop()\n            pass", ['C08.R1'])
+M('run-exitmsg-wrong-bit', ['C08'], F, "                        if prop_exit & (2 if is_exc else 1):", "                        if prop_exit & (1 if is_exc else 2):", ['C08.R1', 'C08.R2'])
+M('run-exitmsg-after-fini', ['C08'], F, """                        if prop_exit & (2 if is_exc else 1):
+                            filter.mq.send_exit_msg('error' if is_exc else 'clean')
+
+                except Filter.PropagateError:  # it has done its job, now eat it
+                    pass
+
+                finally:
+                    filter.fini()""", """                        pass
+
+                except Filter.PropagateError:  # it has done its job, now eat it
+                    pass
+
+                finally:
+                    filter.fini()
+                    if prop_exit & 1:
+                        filter.mq.send_exit_msg('clean')""", ['C08.R1'])
+M('flags-all-1', ['C08'], F, "PROP_EXIT_FLAGS  = {'all': 3, 'clean': 1, 'error': 2, 'none': 0}", "PROP_EXIT_FLAGS  = {'all': 1, 'clean': 1, 'error': 2, 'none': 0}", ['C08.R2', 'C08.R1'])
+M('on-exit-wrong-bit', ['C08'], F, "                if self.obey_exit & PROP_EXIT_FLAGS['error']:", "                if self.obey_exit & PROP_EXIT_FLAGS['clean']:", ['C08.R2'])
+M('on-exit-error-clean-exit', ['C08'], F, "self.exit('another filter errored', Filter.PropagateError)", "self.exit('another filter errored')", ['C08.R2'])
+M('exit-raise-conditional', ['C08'], F, """            logger.info(f'{reason}, exiting...' if reason else 'exiting...')
+
+        raise exc or Filter.Exit""", """            logger.info(f'{reason}, exiting...' if reason else 'exiting...')
+
+            raise exc or Filter.Exit""", ['C08.R3'])
+M('exit-no-stop-evt', ['C08'], F, "        if not self.stop_evt.is_set():  # because we don't want to potentially log multiple exits\n            self.stop_evt.set()", "        if not self.stop_evt.is_set():  # because we don't want to potentially log multiple exits\n            pass", ['C08.R3'])
+M('loop-once-no-poll-send', ['C08'], F, """        while not self.mq.send(frames, min(POLL_TIMEOUT_MS, outputs_timeout)):
+            if self.stop_evt.is_set():
+                self.exit()
+""", """        while not self.mq.send(frames, min(POLL_TIMEOUT_MS, outputs_timeout)):
+""", ['C08.R4'])
+M('loop-once-deadline-conditional', ['C08'], F, "        if (exit_after_t := self.exit_after_t) is not None and time.time() >= exit_after_t:\n            self.exit('exit_after')", "        if frames and (exit_after_t := self.exit_after_t) is not None and time.time() >= exit_after_t:\n            self.exit('exit_after')", ['C08.R4'])
+M('loop-once-deadline-flipped', ['C08'], F, "is not None and time.time() >= exit_after_t:", "is not None and time.time() <= exit_after_t:", ['C08.R4'])
+M('time-module-called', ['C08'], F, "            self.exit_after_t = time.time() + exit_after", "            self.exit_after_t = time() + exit_after", ['C08.R5'])
+M('mq-destroy-skips-metrics-sender', ['C08'], MQ, "        if self.metrics_sender:\n            self.metrics_sender.destroy()\n            self.metrics_sender = None", "        if self.metrics_sender:\n            self.metrics_sender = None", ['C08.R6'])
+M('receiver-destroy-no-sub-close', ['C08'], Z, "            sender.sub.close()\n\n            if sender.ephemeral < 2:", "            if sender.ephemeral < 2:", ['C08.R6'])
+M('sender-destroy-no-ctx-free', ['C08'], Z, "                    pass\n\n        ZMQContext.free()\n\n    def send_oob(self, msg: ZMQMessage):\n        msg_ = [TOPIC_DELIM_B2", "                    pass\n\n    def send_oob(self, msg: ZMQMessage):\n        msg_ = [TOPIC_DELIM_B2", ['C08.R6'])
+M('exitmsg-skips-sender', ['C08'], MQ, "        if self.sender is not None:\n            self.sender.send_oob(reason)\n", "", ['C08.R6'])
+
+M('extra-emit-stop-in-shutdown-finally', ['C18'], F, "                        finally:\n                            filter.shutdown()", "                        finally:\n                            filter.shutdown()\n                            if filter.emitter is not None:\n                                filter.emitter.emit_stop()", ['C18.R1'])
+M('complete-on-error-path', ['C18'], F, """                if filter is not None and hasattr(filter, 'emitter') and filter.emitter is not None:
+                    filter.emitter.stop_lineage_heart_beat()
+                    filter.emitter.emit_stop()
+                logger.error(exc)""", """                if filter is not None and hasattr(filter, 'emitter') and filter.emitter is not None:
+                    filter.emitter.stop_lineage_heart_beat()
+                    filter.emitter.emit_complete()
+                logger.error(exc)""", ['C18.R2', 'C18.R1'])
+M('heartbeat-emits-abort', ['C18'], LN, "            self._stop_event.wait(self.interval)\n        self.emit_complete()", "            self._stop_event.wait(self.interval)\n        self.emit_stop()", ['C18.R1', 'C18.R2'])
+M('run-id-regenerated', ['C18'], LN, "        self._stop_event.clear()\n        self._thread = threading.Thread(target=self._heartbeat_loop, daemon=True)", "        self._stop_event.clear()\n        self.run_id = self.get_run_id()\n        self._thread = threading.Thread(target=self._heartbeat_loop, daemon=True)", ['C18.R3'])
+M('start-after-heartbeat', ['C18'], F, "            self.emitter.emit_start(facets=facets)\n            self.emitter.start_lineage_heart_beat()", "            self.emitter.start_lineage_heart_beat()\n            self.emitter.emit_start(facets=facets)", ['C18.R3'])
+M('emit-before-init', ['C18'], F, "                cls.filter_name = filter.__class__.__name__\n                filter.init(filter.config)", "                cls.filter_name = filter.__class__.__name__\n                if filter.emitter is not None:\n                    filter.emitter.emit_stop()\n                filter.init(filter.config)", ['C18.R1'])
